@@ -6,7 +6,7 @@ From FB.Spec Require Import Prog Ref Oracle.
 From FB.Model Require Import Types Monad CreatedFiles BuildDirs SimpleOps Builder Persist Build Run Frame.
 From FB.Proofs Require Import CoreLawsChildren ViewDefs ViewLemmas ViewInit ViewXDefs ViewXInit ViewXQuery ViewXSteps ViewXFail
      ViewXSetup ViewXRun ViewXReach ViewXC04 ViewR1 ViewR2 ViewR3 ViewR9 ViewXMake1 ViewXMake2.
-From FB.Proofs Require Import FsLemmas ReplayLaws FrameLaws CleanLaws RollbackDirsLaws
+From FB.Proofs Require Import BuildFileLaws FsLemmas ReplayLaws FrameLaws CleanLaws RollbackDirsLaws
   RollbackDirsView RollbackDirsBase RollbackDirsInv RollbackDirsMake RollbackDirsRun
   RollbackDirsMain CommitDirsInv CommitDirsRun CommitDirsMain
   CommitDirs2Y CommitDirs2Bd CommitDirs2Step CommitDirs2Run CommitDirs2Main CommitDirs3Adopt CommitDirs3Run CommitDirs3Main.
@@ -14,7 +14,7 @@ Import ListNotations.
 Local Open Scope list_scope.
 
 (* ------------------------------------------------------------------ mkdir on what is there *)
-Lemma make_one_dir_existing : forall q w, w_faults w = [] -> lookup (w_fs w) q = Some NDir ->
+Lemma make_one_dir_on_existing : forall q w, w_faults w = [] -> lookup (w_fs w) q = Some NDir ->
   make_one_dir q w = (set_effects (S (w_effects w)) w, inl false).
 Proof.
   intros q w Hf Hq. unfold make_one_dir. unfold bind at 1, get.
@@ -26,7 +26,7 @@ Proof.
   rewrite Hm. cbn. reflexivity.
 Qed.
 
-Lemma make_dirs_loop_existing : forall ds made w, w_faults w = [] ->
+Lemma make_dirs_loop_on_existing : forall ds made w, w_faults w = [] ->
   (forall q, In q ds -> lookup (w_fs w) q = Some NDir) ->
   exists w1, make_dirs_loop ds made w = (w1, inl tt) /\
     w_fs w1 = w_fs w /\ w_bd w1 = w_bd w /\ w_old w1 = w_old w /\ w_new w1 = w_new w /\
@@ -35,7 +35,7 @@ Proof.
   induction ds as [|q ds IH]; intros made w Hf Hq.
   - exists w. cbn [make_dirs_loop]. unfold ret. repeat split; auto.
   - cbn [make_dirs_loop]. unfold bind at 1, attempt.
-    rewrite (make_one_dir_existing q w Hf (Hq q (or_introl eq_refl))).
+    rewrite (make_one_dir_on_existing q w Hf (Hq q (or_introl eq_refl))).
     destruct (IH made (set_effects (S (w_effects w)) w) Hf (fun x Hx => Hq x (or_intror Hx)))
       as (w1 & E & A1 & A2 & A3 & A4 & A5 & A6).
     exists w1. split; [exact E|]. repeat split; assumption.
@@ -75,7 +75,7 @@ Proof.
     cbn [dirname tl] in Hs.
     exact (wf_ancestor_dir _ Hwf (n :: d) (NFile g) q Hcf (suffix_below q d n Hs)). }
   destruct HRa as (HXa & HPa & HFa).
-  destruct (make_dirs_loop_existing ds [] wa HFa Hds) as (wb & El & B1 & B2 & B3 & B4 & B5 & B6).
+  destruct (make_dirs_loop_on_existing ds [] wa HFa Hds) as (wb & El & B1 & B2 & B3 & B4 & B5 & B6).
   apply bind_inv in E. destruct E as [[wb' [u [El' E]]]|[e [El' _]]]; [|congruence].
   rewrite El in El'. inversion El'; subst wb' u. inversion E; subst w1 ccd. clear E El'.
   apply (@RInv2_step (fun _ => True) [] [] s _ HR0).
@@ -126,3 +126,57 @@ Proof.
   - intros a H1 H2 H3. rewrite Eb. rewrite Hhid in H2. exact (x_hid_rf _ _ HX a (Hfile a H1) H2 H3).
   - intros a H1 H2. rewrite Eb in H1. rewrite Hhid. exact (x_rf_hid _ _ HX a H1 (Hfile a H2)).
 Qed.
+
+(* ------------------------------------------------------------------ the root function is entered, no recorded directories *)
+(* The previous cache records no directory (every first build: the empty cache): the directories
+   of the cache file that _make_dirs makes are not known to BuildDirs, and nothing is tracked. *)
+Theorem RInv2_root_entry_nodirs : forall w cachefile old nm vers w1 ccd,
+  fs_wf (w_fs w) -> old_ok old cachefile -> w_faults w = [] ->
+  isdir (w_fs w) cachefile = false -> maxlen (w_fs w) < walk_fuel -> WfCache old ->
+  c_dirs old = [] -> List.length (dirname cachefile) < walk_fuel ->
+  make_dirs (dirname cachefile) (start_world w cachefile old nm vers) = (w1, inl ccd) ->
+  RInv2 (fun _ : cache => True) [] (set_log (LInvoke "<root>" None PNone PNone :: w_log w1) w1).
+Proof.
+  intros w cf old nm vers w1 ccd Hwf Hok HF Hnc Hml HW Hnd Hlen E.
+  pose proof (RInv2_start_world (fun _ => True) w cf old nm vers Hwf Hok HF Hnc Hml HW I) as HR0.
+  pose proof (RInv_start_world w cf old nm vers Hwf Hok HF) as HR.
+  set (s := start_world w cf old nm vers) in *.
+  pose proof (make_dirs_gl walk_fuel _ _ _ _ E Hlen) as G.
+  pose proof (make_dirs_quiet _ _ _ _ E) as [_ Q2].
+  unfold make_dirs in E. apply bind_inv in E. destruct E as [[wa [ds [Eds E]]]|[e [_ E]]]; [|discriminate].
+  destruct HR as (HX & HP & _).
+  destruct (dirs_to_make_spec _ [] s wa ds HX Eds) as [Q _ _].
+  destruct (qrel_facts _ _ _ HX Q) as (HXa & Sa & _ & Fa).
+  apply bind_inv in E. destruct E as [[wb [u [El E]]]|[e [_ E]]]; [|discriminate].
+  inversion E; subst wb ccd. clear E.
+  destruct (make_dirs_loop_res _ _ _ _ _ El) as [((C1 & C2 & C3 & C4) & S2 & S3) M].
+  assert (Hwfa : fs_wf (w_fs wa)) by (rewrite (sv_fs _ _ Sa); exact Hwf).
+  assert (HX1 : XInv [] w1).
+  { apply (XInv_dirs_added wa w1 HXa).
+    - rewrite (sv_counts _ _ Sa). reflexivity.
+    - rewrite (sv_created _ _ Sa). reflexivity.
+    - intro x. destruct (mem_path x (bd_maybe (w_bd wa))) eqn:Em; [|reflexivity].
+      pose proof (ViewXFrame.q_mb _ _ _ Fa x Em) as Y. unfold s in Y. cbn [w_bd start_world bd_init bd_maybe] in Y.
+      rewrite Hnd in Y. cbn in Y. discriminate Y.
+    - intro x. destruct (mem_path x (bd_removed (w_bd wa))) eqn:Em; [|reflexivity].
+      destruct (ViewXFrame.q_rm _ _ _ Fa x Em) as [Y|Y]; unfold s in Y; cbn [w_bd start_world bd_init bd_maybe bd_removed] in Y.
+      + rewrite Hnd in Y. cbn in Y. discriminate Y.
+      + cbn in Y. discriminate Y.
+    - exact C1.
+    - exact C2.
+    - exact C3.
+    - exact C4.
+    - exact (S2 Hwfa).
+    - intro x. destruct (in_dec path_eq_dec x ds) as [Hin|Hin].
+      + destruct (M x Hin) as [Y|(Y & _)]; [right; exact Y|left; exact Y].
+      + left. apply S3. exact Hin. }
+  apply (@RInv2_step (fun _ => True) [] [] s _ HR0).
+  - destruct G as (G1 & G2 & G3). split; [exact G1|]. split; [exact G2|exact G3].
+  - split; [eapply XInv_fields; [exact HX1|..]; reflexivity|].
+    split.
+    + intros x Hx. cbn [w_new set_log] in Hx. rewrite C3 in Hx. rewrite (sv_new _ _ Sa) in Hx. exact (HP x Hx).
+    + cbn [w_faults set_log]. rewrite Q2. exact HF.
+Qed.
+
+Print Assumptions RInv2_root_entry_rebuild.
+Print Assumptions RInv2_root_entry_nodirs.
